@@ -1,1 +1,223 @@
-(* C01 - to be filled *)
+(* C01 / C02 - what one entry of a segment contributes to the group of a section: a declarative,
+   non-fuelled description (used by both properties). *)
+From Slinky Require Import Model.Types Model.Runtime Model.Style Model.Script Model.Writer Model.LdSem.
+From Coq Require Import ZArith Permutation.
+Local Open Scope string_scope.
+
+(* ---------- the entries that name input files ---------- *)
+
+(* included object / archive entries, depth-first; an excluded group drops its subtree.  Each leaf
+   comes with the directory accumulated from the groups above it and with the chain of entries from
+   the top-level entry down to the leaf itself *)
+Fixpoint leaves (rt : runtime) (base : string) (f : file_info)
+  : list (file_info * string * list file_info) :=
+  match f with
+  | FileInfo _ k _ _ _ _ _ files d c _ =>
+      if should_emit rt c then
+        match k with
+        | KObject | KArchive => [(f, base, [f])]
+        | KGroup =>
+            match escape_path rt d with
+            | Ok d' => map (fun x => (fst (fst x), snd (fst x), f :: snd x))
+                           (flat_map (leaves rt (push base d')) files)
+            | Err _ => []
+            end
+        | KPad | KLinkerOffset => []
+        end
+      else []
+  end.
+
+(* the archive member an entry names *)
+Definition member_of (f : file_info) : option string :=
+  match fi_kind f with KArchive => Some (fi_subfile f) | _ => None end.
+
+Section Entry.
+  Variable rt : runtime.
+  Variable sty : style.
+  Variable cfg : wcfg.
+  Variable seg : segment.
+  Variable sections : list string.      (* the list of the half being written *)
+
+  (* the sections of file f that are emitted in the group of [section]: the section itself unless
+     f's section_order sends it elsewhere, and the sections f's section_order sends here *)
+  Definition here (f : file_info) (section : string) : list string := sections_here f section sections.
+
+  (* the sub-group sections that follow k (none when the script references partial objects) *)
+  Definition members (k : string) : list string :=
+    if reference_partial cfg then [] else
+    match lookup k (sections_subgroups seg) with Some others => others | None => [] end.
+
+  (* the sections emitted for file f when the group of [section] is written, in order: every k of
+     [here f section] directly followed by the expansion of its sub-group members *)
+  Inductive Expands (f : file_info) : string -> list string -> Prop :=
+  | Exp_section section l : ExpandsKeys f (here f section) l -> Expands f section l
+  with ExpandsKeys (f : file_info) : list string -> list string -> Prop :=
+  | Exp_nil : ExpandsKeys f [] []
+  | Exp_key k ks l1 l2 :
+      ExpandsMembers f (members k) l1 -> ExpandsKeys f ks l2 -> ExpandsKeys f (k :: ks) (k :: l1 ++ l2)
+  with ExpandsMembers (f : file_info) : list string -> list string -> Prop :=
+  | Exp_mnil : ExpandsMembers f [] []
+  | Exp_member s ss l1 l2 :
+      Expands f s l1 -> ExpandsMembers f ss l2 -> ExpandsMembers f (s :: ss) (l1 ++ l2).
+
+  (* what an entry that is not a group writes for section k: objects and archive members one input
+     statement, pads and linker offsets their statement iff k is their own section *)
+  Definition own_stmts (f : file_info) (k base : string) : list stmt :=
+    match fi_kind f with
+    | KObject =>
+        match escape_path rt (fi_path f) with
+        | Ok p => [SInput (keeps (fi_keep f) k) (display (push base p)) None k (wildcard_sections seg)]
+        | Err _ => []
+        end
+    | KArchive =>
+        match escape_path rt (fi_path f) with
+        | Ok p => [SInput (keeps (fi_keep f) k) (display (push base p)) (Some (fi_subfile f)) k
+                          (wildcard_sections seg)]
+        | Err _ => []
+        end
+    | KPad => if String.eqb (fi_section f) k then [SDotAdd (fi_pad_amount f)] else []
+    | KLinkerOffset =>
+        if String.eqb (fi_section f) k
+        then [SAssign false false true (linker_offset sty (fi_linker_offset_name f)) EDot] else []
+    | KGroup => []
+    end.
+
+  Definition path_ok (f : file_info) : Prop :=
+    match fi_kind f with
+    | KObject | KArchive => exists p, escape_path rt (fi_path f) = Ok p
+    | _ => True
+    end.
+
+  (* the statements of entry f in the group of [section]:
+     - an entry: for every section k of its expansion, in order, the statements of f for k;
+     - an excluded entry: nothing; an included object, archive member, pad, linker offset: own_stmts;
+     - an included group: its children in list order, each asked for k, under the group's directory *)
+  Inductive EntryStmts : file_info -> string -> string -> list stmt -> Prop :=
+  | ES_entry f section base keys l :
+      Expands f section keys -> KeysStmts f keys base l -> EntryStmts f section base l
+  with KeysStmts : file_info -> list string -> string -> list stmt -> Prop :=
+  | KS_nil f base : KeysStmts f [] base []
+  | KS_cons f k ks base l1 l2 :
+      FileStmts f k base l1 -> KeysStmts f ks base l2 -> KeysStmts f (k :: ks) base (l1 ++ l2)
+  with FileStmts : file_info -> string -> string -> list stmt -> Prop :=
+  | FS_excluded f k base : should_emit rt (fi_conds f) = false -> FileStmts f k base []
+  | FS_leaf f k base :
+      should_emit rt (fi_conds f) = true -> fi_kind f <> KGroup -> path_ok f ->
+      FileStmts f k base (own_stmts f k base)
+  | FS_group f k base d l :
+      should_emit rt (fi_conds f) = true -> fi_kind f = KGroup -> escape_path rt (fi_dir f) = Ok d ->
+      KidsStmts (fi_files f) k (push base d) l -> FileStmts f k base l
+  with KidsStmts : list file_info -> string -> string -> list stmt -> Prop :=
+  | Kids_nil k base : KidsStmts [] k base []
+  | Kids_cons c r k base l1 l2 :
+      EntryStmts c k base l1 -> KidsStmts r k base l2 -> KidsStmts (c :: r) k base (l1 ++ l2).
+
+  (* ---------- which section names can appear ---------- *)
+
+  (* m is emitted for f when the group of a is written: m is in [here f a], or is reached from a
+     sub-group member of such a section *)
+  Inductive Reaches (f : file_info) : string -> string -> Prop :=
+  | Reach_here a k : In k (here f a) -> Reaches f a k
+  | Reach_member a k s m : In k (here f a) -> In s (members k) -> Reaches f s m -> Reaches f a m.
+
+  (* through a chain of entries (the groups above a leaf, then the leaf): each entry is asked for a
+     section its parent emits *)
+  Fixpoint reach_via (chain : list file_info) (a b : string) : Prop :=
+    match chain with
+    | [] => a = b
+    | f :: r => exists m, Reaches f a m /\ reach_via r m b
+    end.
+
+  (* the input statement [s] names leaf c (under directory b) and section sect *)
+  Definition names_leaf (c : file_info) (b : string) (sect : string) (s : stmt) : Prop :=
+    exists p, escape_path rt (fi_path c) = Ok p /\
+              s = SInput (keeps (fi_keep c) sect) (display (push b p)) (member_of c) sect (wildcard_sections seg).
+End Entry.
+
+(* [here], spelled out: the section itself unless section_order redirects it, plus the keys that
+   section_order sends to it *)
+Definition here_spec (f : file_info) (section k : string) : Prop :=
+  match fi_section_order f with
+  | [] => k = section
+  | so => (k = section /\ lookup section so = None) \/ In (k, section) so
+  end.
+
+(* the input statements of a list *)
+Definition is_input (s : stmt) : bool := match s with SInput _ _ _ _ _ => true | _ => false end.
+Definition inputs_of (l : list stmt) : list stmt := filter is_input l.
+
+Definition input_section (s : stmt) : string := match s with SInput _ _ _ sect _ => sect | _ => "" end.
+
+(* ---------- well-formed section configuration (for "exactly once") ---------- *)
+
+(* the closure of a list of sections under sub-groups, as a relation *)
+Inductive InClosure (seg : segment) (U : list string) : string -> Prop :=
+| IC_base k : In k U -> InClosure seg U k
+| IC_member k others m :
+    InClosure seg U k -> lookup k (sections_subgroups seg) = Some others -> In m others -> InClosure seg U m.
+
+Definition configured (seg : segment) : list string := (alloc_sections seg ++ noload_sections seg)%list.
+
+(* sub-groups form a forest hanging below the configured sections: no member is itself configured,
+   no member has two leads or appears twice, no lead is listed twice, and following members always
+   terminates (rank decreases) *)
+Definition WF_subgroups (seg : segment) : Prop :=
+  NoDup (configured seg) /\
+  NoDup (map fst (sections_subgroups seg)) /\
+  NoDup (flat_map snd (sections_subgroups seg)) /\
+  (forall m, In m (flat_map snd (sections_subgroups seg)) -> ~ In m (configured seg)) /\
+  exists rank : string -> nat,
+    forall k others m, lookup k (sections_subgroups seg) = Some others -> In m others -> (rank m < rank k)%nat.
+
+(* a file's section_order only moves configured sections to configured sections, each key once *)
+Definition WF_section_order (seg : segment) (f : file_info) : Prop :=
+  NoDup (map fst (fi_section_order f)) /\
+  forall k d, In (k, d) (fi_section_order f) -> In k (configured seg) /\ In d (configured seg).
+
+(* ---------- output sections of a script ---------- *)
+
+Definition outsec_names (l : list stmt) : list string :=
+  flat_map (fun s => match s with SOutSec n _ _ _ _ _ => [n] | _ => [] end) l.
+
+(* ---------- link level: every input section is in exactly one place ---------- *)
+
+(* the markers of the input sections that are placed, discarded, or still waiting *)
+Definition all_markers (st : lstate) : list string :=
+  (map pl_marker (l_placed st) ++ l_discarded st ++ map u_marker (l_remaining st))%list.
+
+(* ---------- sample data ---------- *)
+
+Definition c01_obj (p : string) (so : pairs) : file_info :=
+  FileInfo p KObject "" 0%N "" "" so [] "" no_conds KAbsent.
+
+Definition c01_group (dir : string) (files : list file_info) : file_info :=
+  FileInfo "" KGroup "" 0%N "" "" [] files dir no_conds KAbsent.
+
+Definition c01_settings (alloc noload : list string) (subs : list (string * list string)) : settings :=
+  Settings "" Splat None None None None "char" true [] [] [] false false None None
+           alloc noload None None None None None [] [] false None subs.
+
+Definition c01_seg (files : list file_info) (alloc noload : list string)
+           (subs : list (string * list string)) : segment :=
+  Segment "s" files None None None None "" None no_conds alloc noload None
+          None None None None [] [] false None subs KAbsent.
+
+Definition c01_doc (files : list file_info) (alloc noload : list string)
+           (subs : list (string * list string)) : document :=
+  Document (c01_settings alloc noload subs) [] [c01_seg files alloc noload subs] None [] [] [].
+
+Definition c01_rt : runtime := Runtime [] false.
+
+(* the input statements of the SECTIONS block of a script, looking inside output sections *)
+Fixpoint deep_inputs (s : stmt) : list stmt :=
+  match s with
+  | SInput _ _ _ _ _ => [s]
+  | SOutSec _ _ _ _ _ body => flat_map deep_inputs body
+  | SSections body => flat_map deep_inputs body
+  | _ => []
+  end.
+
+Definition script_inputs (l : list stmt) : list string :=
+  flat_map (fun s => flat_map (fun i => match i with
+                                        | SInput _ p _ sect _ => [p ++ "(" ++ sect ++ ")"]
+                                        | _ => [] end) (deep_inputs s)) l.
